@@ -1574,6 +1574,23 @@ def eval_cond(f, e, env):
                 return UNKNOWN
             r = eval_atom(a, cenv)
             if r is UNKNOWN and isinstance(a, ast.Compare) and \
+                    len(a.ops) == 1 and \
+                    isinstance(a.ops[0], (ast.In, ast.NotIn)) and \
+                    isinstance(a.comparators[0],
+                               (ast.Tuple, ast.List, ast.Set)) and \
+                    1 <= len(a.comparators[0].elts) <= 6:
+                # `x in (a, b)` is `x == a or x == b`
+                vals = [ev(('atom', ' '.join(src(ast.Compare(
+                    left=a.left, ops=[ast.Eq()],
+                    comparators=[el])).split())))
+                    for el in a.comparators[0].elts]
+                if any(x is True for x in vals):
+                    r = True
+                elif not any(x is UNKNOWN for x in vals):
+                    r = False
+                if r is not UNKNOWN and isinstance(a.ops[0], ast.NotIn):
+                    r = not r
+            if r is UNKNOWN and isinstance(a, ast.Compare) and \
                     len(a.ops) == 1 and type(a.ops[0]) in _COMPLEMENT:
                 # `a == b` when the environment speaks of `a != b`
                 flipped = ast.Compare(left=a.left, ops=[
@@ -1644,6 +1661,82 @@ def eval_test(an, f, e, env):
         return eval_cond(f, _parse_expr(txt), env)
     except (SyntaxError, AnalysisError, KeyError):
         return UNKNOWN
+
+
+def return_exprs_under(an, f, env):
+    """The `return` expressions (ast, None for a bare return or falling off
+    the end) and ('raise', class) that f can reach when its conditions
+    evaluate as env says."""
+    c = an.cfg(f)
+    out = []
+    seen = set()
+    stack = [c.entry]
+    while stack:
+        i = stack.pop()
+        if i in seen:
+            continue
+        seen.add(i)
+        n = c.nodes[i]
+        if n.kind == 'test':
+            v = eval_test(an, f, n.ast, env)
+            if v is UNKNOWN:
+                stack.extend(s for s in c.succ[i]
+                             if (i, s) not in c.exc_edges)
+            else:
+                stack.extend(c.branch(n, bool(v)))
+            continue
+        if n.kind == 'return':
+            out.append(n.ast.value)
+            continue
+        if n.kind == 'raise_stmt':
+            out.append(('raise', raise_class(an, f, n.ast)))
+            continue
+        if i == c.exit:
+            out.append(None)
+            continue
+        for s in c.succ[i]:
+            if (i, s) not in c.exc_edges:
+                stack.append(s)
+    return out
+
+
+def simplify_under(f, e, env):
+    """e with the `a or b`, `a and b`, `x if c else y` it contains reduced
+    where env decides the operand (a new AST)."""
+    import copy
+
+    class T(ast.NodeTransformer):
+        def visit_BoolOp(self, node):
+            self.generic_visit(node)
+            vals = []
+            for k, v in enumerate(node.values):
+                t = eval_cond(f, v, env)
+                last = k == len(node.values) - 1
+                if t is UNKNOWN or last:
+                    vals.append(v)
+                    if t is UNKNOWN:
+                        continue
+                    break
+                if isinstance(node.op, ast.Or) and t:
+                    vals.append(v)
+                    break
+                if isinstance(node.op, ast.And) and not t:
+                    vals.append(v)
+                    break
+                # decided and skipped: a truthy operand of `and`, a falsy
+                # one of `or`
+            if len(vals) == 1:
+                return vals[0]
+            return ast.copy_location(ast.BoolOp(op=node.op, values=vals),
+                                     node)
+
+        def visit_IfExp(self, node):
+            self.generic_visit(node)
+            t = eval_cond(f, node.test, env)
+            if t is UNKNOWN:
+                return node
+            return node.body if t else node.orelse
+    return T().visit(copy.deepcopy(e))
 
 
 def returns_under(an, f, env):
